@@ -21,7 +21,13 @@ RULE = ("cases are drawn per filter family from adversarial generators (markup c
         "run through Environment.call_filter and through a rendered template (sync; join/urlize/"
         "tojson also in an async environment). distinct = distinct (family, input, arguments) "
         "cases that are non-trivial: tojson value contains one of < > & '; xmlattr dict emits an "
-        "attribute whose value or (accepted) key has a markup character, or has a key that must be rejected; urlize "
+        "attribute whose value or (accepted) key has a markup character, or has a key that must be rejected, "
+        "or has a key that is not a plain str; xmlattr mappings come in two families: str keys, and typed "
+        "mappings whose keys are int / float / bool / None / tuple / frozenset / Fraction / PurePath / bytes / "
+        "date / datetime / complex / application objects with __str__ / str subclasses (plain subclass, "
+        "StrEnum, Markup) - the text form of every type family carries each forbidden character class - "
+        "with values that are str, numbers, objects with __str__, lists, Fraction, bytes; typed mappings "
+        "with a literal spelling are also written as a dict literal in the template; urlize "
         "output contains >=1 anchor and input has a markup character; escape input has a markup "
         "character; Markup-subject filter case where the nonce'd argument demonstrably arrived "
         "(escaped or not) in the result")
@@ -33,6 +39,12 @@ ASSUMPTIONS = [
     "ValueError when their item is emitted; other odd keys may be rejected or emitted intact, except that "
     "the markup characters < \" ' & of an accepted key must arrive escaped in the attribute name (the result "
     "is a safe string: the tokenised name has no raw < > \" ' and html.unescape(name) == key)",
+    "xmlattr keys that are not str: the docstring's rule 'If any key contains a space, / solidus, > "
+    "greater-than sign, or = equals sign, this fails with a ValueError' is applied to the key's TEXT (str(key)), "
+    "which is what is written into the tag; any exception (TypeError included) is a refusal; a non-str key "
+    "whose text is valid may be refused or emitted intact (then the output must tokenise into exactly the "
+    "expected attributes). Never demanded: acceptance of any non-str key. Markup keys with markup "
+    "characters and str subclasses that override __str__ are not generated",
     "tojson inputs are JSON-native (str keys, lists, finite floats) so that json.loads(output) == input is the exact round trip",
     "a filter result that is a plain str (not Markup) is judged by its escaped form, because that is what autoescape outputs",
     "urlize input, xmlattr values and filter arguments are plain str (Markup data is the author's explicit marking)",
@@ -46,17 +58,39 @@ FLOORS = {
                            "xmlattr_rejected_bad_key": 250, "xmlattr_names_with_markup_checked": 60,
                            "urlize_anchors_parsed": 1200,
                            "escape_compared": 800, "msubj_arg_arrived_escaped": 1200,
-                           "template_route": 4000}},
+                           "template_route": 4000,
+                           "xmlattr_nonstr_key_runs": 3500, "xmlattr_nonstr_bad_key_runs.space": 800,
+                           "xmlattr_nonstr_bad_key_runs.solidus": 700,
+                           "xmlattr_nonstr_bad_key_runs.gt": 300,
+                           "xmlattr_nonstr_bad_key_runs.equals": 500,
+                           "xmlattr_nonstr_key_type.tuple": 700,
+                           "xmlattr_nonstr_key_type.TextObj": 1500,
+                           "xmlattr_nonstr_key_type.Fraction": 300,
+                           "xmlattr_nonstr_key_type.PurePosixPath": 300,
+                           "xmlattr_nonstr_key_type.int": 300,
+                           "xmlattr_rejected_bad_strsub_key": 80,
+                           "xmlattr_template_literal_route": 100}},
     "thorough": {"evaluations": 200000, "distinct": 60000,
                  "counters": {"tojson_roundtrips": 12000, "xmlattr_tokenized": 8000,
                               "xmlattr_rejected_bad_key": 4000, "xmlattr_names_with_markup_checked": 4000,
                               "urlize_anchors_parsed": 20000,
                               "escape_compared": 12000, "msubj_arg_arrived_escaped": 20000,
-                              "template_route": 60000}},
+                              "template_route": 60000,
+                              "xmlattr_nonstr_key_runs": 50000, "xmlattr_nonstr_bad_key_runs.space": 11000,
+                              "xmlattr_nonstr_bad_key_runs.solidus": 10000,
+                              "xmlattr_nonstr_bad_key_runs.gt": 4500,
+                              "xmlattr_nonstr_bad_key_runs.equals": 6500,
+                              "xmlattr_nonstr_key_type.tuple": 10000,
+                              "xmlattr_nonstr_key_type.TextObj": 22000,
+                              "xmlattr_nonstr_key_type.Fraction": 5000,
+                              "xmlattr_nonstr_key_type.PurePosixPath": 5000,
+                              "xmlattr_nonstr_key_type.int": 5000,
+                              "xmlattr_rejected_bad_strsub_key": 1100,
+                              "xmlattr_template_literal_route": 1500}},
 }
 N_CASES = {"quick": 3000, "thorough": 60000}   # per shard upper bound
 
-KINDS = ["tojson", "xmlattr", "urlize", "urlize", "escape", "msubj", "msubj"]
+KINDS = ["tojson", "xmlattr", "urlize", "urlize", "escape", "msubj", "msubj", "xmlattr_typed"]
 MS_FILTERS = ["indent", "replace", "join", "join_attr", "format", "format_kw",
               "truncate", "wordwrap"]
 
@@ -114,6 +148,9 @@ def gen_case(rng, kind):
                 "indent": rng.choice([None, None, 0, 2, 4])}
     if kind == "xmlattr":
         return {"kind": kind, "items": G.xml_dict(rng), "autospace": rng.random() < 0.75}
+    if kind == "xmlattr_typed":
+        return {"kind": "xmlattr", "typed": True, "items": G.xml_dict_typed(rng),
+                "autospace": rng.random() < 0.75}
     if kind == "urlize":
         return {"kind": kind, "text": G.urlish_text(rng), "args": G.urlize_args(rng),
                 "policy_env": rng.random() < 0.15}
@@ -247,10 +284,93 @@ def check_tojson(ctx, E, case):
         ctx.dist(("tojson", case["value_json"], indent))
 
 
+class TextObj:
+    """An application object used as a mapping key / value: its text form is `text`."""
+
+    def __init__(self, text):
+        self.text = text
+
+    def __str__(self):
+        return self.text
+
+    def __repr__(self):
+        return f"TextObj({self.text!r})"
+
+    def __hash__(self):
+        return hash(self.text)
+
+    def __eq__(self, other):
+        return isinstance(other, TextObj) and other.text == self.text
+
+
+class StrSub(str):
+    pass
+
+
+def make_key(k):
+    """-> (key object, kind) with kind 'str' | 'strsub' | 'nonstr'; k is a str or a typed key
+    [label, payload] (vt.gen.c24_gen.typed_key)"""
+    if isinstance(k, str):
+        return k, "str"
+    t, v = k
+    if t == "strsub":
+        return StrSub(v), "strsub"
+    if t == "strenum":
+        import enum
+        return enum.StrEnum("K", {"M": v}).M, "strsub"
+    if t == "markup":
+        from markupsafe import Markup
+        return Markup(v), "strsub"
+    if t in ("int", "float", "bool", "nonekey"):
+        return v, "nonstr"
+    if t == "tuple":
+        return tuple(v), "nonstr"
+    if t == "frozenset":
+        return frozenset(v), "nonstr"
+    if t == "frac":
+        from fractions import Fraction
+        return Fraction(*v), "nonstr"
+    if t == "path":
+        from pathlib import PurePosixPath
+        return PurePosixPath(v), "nonstr"
+    if t == "bytes":
+        return v.encode("ascii"), "nonstr"
+    if t == "dt":
+        import datetime
+        return datetime.datetime(*v), "nonstr"
+    if t == "date":
+        import datetime
+        return datetime.date(*v), "nonstr"
+    if t == "complex":
+        return complex(*v), "nonstr"
+    if t == "obj":
+        return TextObj(v), "nonstr"
+    raise AssertionError(k)
+
+
+def make_value(spec):
+    t = spec[0]
+    if t == "o":
+        return TextObj(spec[1])
+    if t == "l":
+        return list(spec[1])
+    if t == "fr":
+        from fractions import Fraction
+        return Fraction(*spec[1])
+    if t == "by":
+        return spec[1].encode("utf-8")
+    return spec[1]
+
+
 def _xml_build(env, items):
+    """-> (mapping, [(key text, value text)] of the items to be emitted, [key kind])"""
     d = {}
     expect = []
+    kinds = []
     for key, spec in items:
+        key, kind = make_key(key)
+        if key in d:        # equal to an earlier key (a str subclass equals the plain str)
+            continue
         t = spec[0]
         if t == "none":
             d[key] = None
@@ -258,10 +378,55 @@ def _xml_build(env, items):
         if t == "undef":
             d[key] = env.undefined(name="u")
             continue
-        val = spec[1]
+        val = make_value(spec)
         d[key] = val
-        expect.append((key, str(val)))
-    return d, expect
+        expect.append((str(key), str(val)))
+        kinds.append(kind)
+    return d, expect, kinds
+
+
+def _literal_src(items):
+    """The mapping written as a dict literal of the template language (keys: str, int, float,
+    bool, none and tuples of those), or None when an item has no literal spelling."""
+    def lit(v):
+        if isinstance(v, str):
+            return jlit(v) if v.isascii() else None
+        if v is None:
+            return "none"
+        if isinstance(v, bool):
+            return "true" if v else "false"
+        if isinstance(v, int):
+            return str(v) if abs(v) < 10**15 else None
+        if isinstance(v, float):
+            return repr(v) if "e" not in repr(v) and "n" not in repr(v) else None
+        return None
+
+    parts = []
+    seen = {}
+    for key, spec in items:
+        ko = make_key(key)[0]
+        if ko in seen:          # as in _xml_build: a key equal to an earlier one is left out
+            continue
+        seen[ko] = 1
+        if isinstance(key, str):
+            ks = lit(key)
+        elif key[0] in ("int", "float", "bool", "nonekey"):
+            ks = lit(key[1])
+        elif key[0] == "tuple":
+            els = [lit(e) for e in key[1]]
+            ks = None if None in els else "(" + ", ".join(els) + ("," if len(els) == 1 else "") + ")"
+        else:
+            ks = None
+        if spec[0] == "none":
+            vs = "none"
+        elif spec[0] in ("s", "i", "f", "b"):
+            vs = lit(spec[1])
+        else:
+            vs = None
+        if ks is None or vs is None:
+            return None
+        parts.append(f"{ks}: {vs}")
+    return "{" + ", ".join(parts) + "}"
 
 
 def _xmlattr_names(ctx, out, expect, autospace):
@@ -291,31 +456,69 @@ def _xmlattr_names(ctx, out, expect, autospace):
 def check_xmlattr(ctx, E, case):
     autospace = case["autospace"]
     nontrivial = False
-    for label, env in (("on", E.on), ("off", E.off), ("template", E.on)):
-        d, expect = _xml_build(env, case["items"])
-        must_reject = [k for k, _ in expect if H.key_must_be_rejected(k)]
+    routes = [("on", E.on), ("off", E.off), ("template", E.on)]
+    lit_src = None
+    if case.get("typed"):
+        lit_src = _literal_src(case["items"])
+        if lit_src is not None:
+            routes.append(("template-literal", E.on))
+    for label, env in routes:
+        d, expect, kinds = _xml_build(env, case["items"])
+        # decided on the TEXT of the key, whatever its type: the text is what is written into
+        # the tag as the attribute name
+        must_reject = [(k, kind) for (k, _), kind in zip(expect, kinds)
+                       if H.key_must_be_rejected(k)]
+        nonstr = [(k, kind) for (k, _), kind in zip(expect, kinds) if kind == "nonstr"]
+        if nonstr:
+            ctx.count("xmlattr_nonstr_key_runs")
+            for t in sorted({type(k).__name__ for k in d if not isinstance(k, str)}):
+                ctx.count("xmlattr_nonstr_key_type." + t)
+        if "strsub" in kinds:
+            ctx.count("xmlattr_strsub_key_runs")
+        for ch in sorted({c for k, kind in must_reject if kind == "nonstr"
+                          for c in k if c in H.KEY_REJECT_CHARS}):
+            ctx.count("xmlattr_nonstr_bad_key_runs." + CHAR_NAMES[ch])
         try:
             if label == "template":
                 src = "{{ d|xmlattr }}" if autospace else "{{ d|xmlattr(false) }}"
                 out = _render(ctx, E, env, src, d=d)
+            elif label == "template-literal":
+                src = "{{ " + lit_src + ("|xmlattr }}" if autospace else "|xmlattr(false) }}")
+                ctx.count("xmlattr_template_literal_route")
+                out = _render(ctx, E, env, src)
             else:
                 out = str(env.call_filter("xmlattr", d, args=[autospace]))
             ctx.count("filter_calls.xmlattr")
-        except ValueError as e:
-            if must_reject:
-                ctx.count("xmlattr_rejected_bad_key")
-                nontrivial = True
-            else:
-                ctx.count("xmlattr_rejected_other_key")
-            continue
         except Exception as e:
-            ctx.count("xmlattr_other_exception." + type(e).__name__)
+            # a refusal: nothing was emitted.  (str keys: ValueError is the documented one.)
+            if nonstr:
+                nontrivial = True
+                ctx.count("xmlattr_nonstr_key_refused")
+            if isinstance(e, ValueError):
+                if must_reject:
+                    ctx.count("xmlattr_rejected_bad_key")
+                    if any(kind == "strsub" for _, kind in must_reject):
+                        ctx.count("xmlattr_rejected_bad_strsub_key")
+                    nontrivial = True
+                else:
+                    ctx.count("xmlattr_rejected_other_key")
+            else:
+                ctx.count("xmlattr_other_exception." + type(e).__name__)
             continue
+        if nonstr:
+            nontrivial = True
+            ctx.count("xmlattr_nonstr_key_emitted")
         if must_reject:
-            k = must_reject[0]
+            k, kind = must_reject[0]
             ch = next(c for c in k if c in H.KEY_REJECT_CHARS)
-            ctx.violation(f"xmlattr:key-accepted:{CHAR_NAMES[ch]}",
-                          f"{label}: key {k!r} was accepted; output {out[:200]!r}", case)
+            if kind == "nonstr":
+                ktype = next(type(x).__name__ for x in d if str(x) == k and not isinstance(x, str))
+                ctx.violation(f"xmlattr:nonstr-key-accepted:{CHAR_NAMES[ch]}",
+                              f"{label}: {ktype} key with text {k!r} was written into the tag "
+                              f"as an attribute name; output {out[:200]!r}", case)
+            else:
+                ctx.violation(f"xmlattr:key-accepted:{CHAR_NAMES[ch]}",
+                              f"{label}: key {k!r} was accepted; output {out[:200]!r}", case)
             continue
         bad = H.check_xmlattr(out, expect, autospace)
         ctx.count("xmlattr_tokenized")
